@@ -27,6 +27,7 @@ def kernel_pack(fams, flavours, which=None):
         _r('INIT', dp.init, flavours, fams, which),
         _r('ENTRY-PASS', dp.entry_pass, flavours, fams, which),
         _r('CONF', dp.conf_ro, flavours, fams, which),
+        _r('FRAME', re_.frame, flavours, r'(^|<)node::algo::(%s)::' % '|'.join(f.lower() for f in fams), 'a search / ordering (kernels, entry points, builders)'),
     ]
     return pack
 
@@ -47,10 +48,10 @@ STD = ['std Vec/VecDeque/BinaryHeap/HashSet/HashMap behave as documented', 'payl
 PROPS['C01'] = dict(
     rules=[_r('P1', re_.p1_connect, DIRECTED), _r('P2', re_.p2_disconnect_directed, DIRECTED), _r('P3', re_.p3_isolate, DIRECTED),
            _r('RM1', re_.rm1_first_match, DIRECTED), _r('SYM', re_.sym, DIRECTED), _r('ENC', re_.enc, DIRECTED), _r('OBS', re_.obs, DIRECTED), _r('OBS-Q', re_.obs_q, DIRECTED),
-           _r('IT2', rg.it2, DIRECTED), _r('ORIENT', re_.orient, DIRECTED), _r('ADJ-PRIM', re_.adj_prim, DIRECTED), _r('T1', re_.t1_try_connect, DIRECTED)],
+           _r('IT2', rg.it2, DIRECTED), _r('ORIENT', re_.orient, DIRECTED), _r('ADJ-PRIM', re_.adj_prim, DIRECTED), _r('T1', re_.t1_try_connect, DIRECTED), _r('G3', rg.g3, DIRECTED)],
     explanation='Induction premises for the mirror invariant of the directed flavours: the invariant holds for Adjacent::new (two empty Vecs, ENC-new), is preserved by each of the '
                 'three mutators (P1 connect pushes the pair, P2 disconnect removes the pair keyed by each other, P3 isolate removes every mirror entry then clears), removals are '
-                'first-match forward scans on both sides (RM1, SYM), nothing else writes the lists (ENC a-d), and every observer reads the list its name says (OBS, IT2/ORIENT).',
+                'first-match forward scans on both sides (RM1, SYM), nothing else writes the lists (ENC a-d), and every observer reads the list its name says (OBS, IT2/ORIENT). No mutator re-acquires a node cell it still holds (G3, every pair of nodes assumed to alias): a panic or self-deadlock between the two halves of one operation would leave exactly one half applied.',
     decides='effect sets, owners, keys and list roles of connect/disconnect/isolate on every path; frame (who may touch the lists); observer footprints',
     does_not_decide='Vec::push/remove semantics and the induction step itself (argued in DESIGN.md); behaviour once a neighbour node has been dropped (excluded by "live nodes")',
     assumptions=STD,
@@ -58,10 +59,10 @@ PROPS['C01'] = dict(
 PROPS['C02'] = dict(
     rules=[_r('P1', re_.p1_connect, UNDIRECTED), _r('P2u', re_.p2_disconnect_undirected, UNDIRECTED), _r('P3', re_.p3_isolate, UNDIRECTED),
            _r('RM1', re_.rm1_first_match, UNDIRECTED), _r('SYM', re_.sym, UNDIRECTED), _r('ENC', re_.enc, UNDIRECTED), _r('OBS', re_.obs, UNDIRECTED), _r('OBS-Q', re_.obs_q, UNDIRECTED),
-           _r('GET-ADJ', re_.get_adj, UNDIRECTED), _r('IT2', rg.it2, UNDIRECTED), _r('ORIENT', re_.orient, UNDIRECTED), _r('ADJ-PRIM', re_.adj_prim, UNDIRECTED), _r('T1', re_.t1_try_connect, UNDIRECTED)],
+           _r('GET-ADJ', re_.get_adj, UNDIRECTED), _r('IT2', rg.it2, UNDIRECTED), _r('ORIENT', re_.orient, UNDIRECTED), _r('ADJ-PRIM', re_.adj_prim, UNDIRECTED), _r('T1', re_.t1_try_connect, UNDIRECTED), _r('G3', rg.g3, UNDIRECTED)],
     explanation='Same scheme for the undirected flavours: every edge is two half-edges (owner OUT list, partner IN list); connect pushes both halves, disconnect removes one half at '
                 'the caller and the complementary half at the peer (P2u), isolate removes the partner half at every neighbour (P3), the adjacency view is OUT ++ IN with the exact '
-                'index arithmetic (GET-ADJ), degree adds both lengths once (OBS).',
+                'index arithmetic (GET-ADJ), degree adds both lengths once (OBS). No conflicting re-acquisition between the halves of one operation (G3; a self-loop makes the peer the node itself).',
     decides='effect sets / pairing of half-edges on every path; frame; observer footprints; index arithmetic of the concatenated view',
     does_not_decide='Vec semantics; the induction step (argued in DESIGN.md)',
     assumptions=STD,
@@ -116,7 +117,8 @@ PROPS['C06'] = dict(
 )
 PROPS['C07'] = dict(
     rules=[_r('ROLES', rk.roles, ALLF, FLAVOURS), _r('EXEC1', rk.exec1, ALLF, FLAVOURS), _r('DISC', rk.disc, ALLF, FLAVOURS, only=DISC6), _r('EXH', rk.exh, ALLF, FLAVOURS),
-           _r('TR0', rk.tr0, ALLF, FLAVOURS), _r('INIT', dp.init, FLAVOURS), _r('ENTRY-PASS', dp.entry_pass, FLAVOURS), _r('CONF', dp.conf_ro, FLAVOURS), _r('METHOD', rk.method, FLAVOURS), _r('REV', rm.rev, FLAVOURS), _r('IT2', rg.it2, FLAVOURS), _r('ORIENT', re_.orient, FLAVOURS)],
+           _r('TR0', rk.tr0, ALLF, FLAVOURS), _r('INIT', dp.init, FLAVOURS), _r('ENTRY-PASS', dp.entry_pass, FLAVOURS), _r('CONF', dp.conf_ro, FLAVOURS), _r('METHOD', rk.method, FLAVOURS), _r('REV', rm.rev, FLAVOURS), _r('IT2', rg.it2, FLAVOURS), _r('ORIENT', re_.orient, FLAVOURS),
+           _r('FRAME', re_.frame, FLAVOURS, r'(^|<)node::algo::', 'a traversal (kernels, entry points, callbacks dispatch, paths)')],
     explanation='All 48 kernels: the callback runs first and exactly once per yielded edge (EXEC1), a rejected edge neither marks, records nor extends reachability (DISC i), the edge handed '
                 'over is the live iterator item or its value-preserving reverse (DISC vi/vii, REV, IT2), every reachable node is expanded once and completely (EXH, DISC ii/iii, INIT), '
                 'and the dispatcher maps Empty/ForEach/Filter correctly (METHOD). The ForEach/Filter callback call is on every path of its dispatcher arm (METHOD); entries answer through a kernel run (ENTRY-PASS).',
@@ -182,8 +184,8 @@ PROPS['C16'] = dict(
 
 PROPS['C19'] = dict(
     rules=[_r('OWN1', ro.own1, FLAVOURS), _r('OWN2', ro.own2, FLAVOURS), ('OWN3', lambda ctx: ro.own3(ctx)), _r('OWN4', ro.own4, FLAVOURS),
-           _r('ENC', re_.enc, FLAVOURS, only=('ENC-d', 'ENC-new')), _r('P1', re_.p1_connect, FLAVOURS), _r('IT2', rg.it2, FLAVOURS)],
-    explanation='Type-level ownership graph: the adjacency lists own only weak peer references (OWN1: structured type walk; the only strong edge is Node -> allocation), every type a '
+           _r('ENC', re_.enc, FLAVOURS, only=('ENC-d', 'ENC-new')), _r('P1', re_.p1_connect, FLAVOURS), _r('IT2', rg.it2, FLAVOURS), _r('MAP', rc.map_rules, FLAVOURS, only=('MAP',))],
+    explanation='A container is a handle holder too: a member leaves it only through remove(), and insert() never replaces one (MAP) -- otherwise a node is released while the program still holds the container it put it in. Type-level ownership graph: the adjacency lists own only weak peer references (OWN1: structured type walk; the only strong edge is Node -> allocation), every type a '
                 'public signature hands out (Edge, Path, Graph, iterator items, lookups) holds strong Node handles and no public signature mentions a weak one (OWN2), no '
                 'forget/ManuallyDrop/leak/raw-pointer escape hatch and no unsafe code (OWN3, zero-count scan with a positive-control fixture compiled on every run), connect stores '
                 'downgrade(node), iterators and lookups return upgrade(..) of the stored peer, and a Node is only ever built by new/clone/upgrade (OWN4, ENC-d, IT2). In safe Rust a value '
@@ -207,7 +209,8 @@ PROPS['C18'] = dict(
 )
 
 PROPS['C12'] = dict(
-    rules=[_r('SER', rs.ser_rules, FLAVOURS), _r('P1', re_.p1_connect, FLAVOURS), _r('ENC-push', re_.enc_append, FLAVOURS), _r('ORIENT', re_.orient, FLAVOURS)],
+    rules=[_r('SER', rs.ser_rules, FLAVOURS), _r('P1', re_.p1_connect, FLAVOURS), _r('ENC-push', re_.enc_append, FLAVOURS), _r('ORIENT', re_.orient, FLAVOURS),
+           _r('FRAME', re_.frame, FLAVOURS, r'as serde::Serialize>::serialize$', 'the writer (and every helper it calls)')],
     explanation='Writer/reader agreement on all four flavours: the two serialize_element::<T> calls and the two next_element::<T> calls carry the same element types in the same order '
                 'inside a 2-tuple (SER1); the writer loops over all members and, per member, over an edge iterator whose list footprint is exactly the OUT list, so each edge (stored as '
                 'one OUT half) is written exactly once (SER2); the writer pushes (key(u), key(v), e) and the reader connects (get(t.0), get(t.1), t.2) (SER3); both sides use push and '
@@ -231,7 +234,8 @@ PROPS['C13'] = dict(
 
 PROPS['C11'] = dict(
     rules=[_r('SCC', rscc.scc_rules, DIRECTED)] + kernel_pack(('Order',), DIRECTED) + [_r('ORD1', rk.ord1, DIRECTED), _r('ORD2', rm.ord2, DIRECTED), _r('ORD2d', rm.ord2_derived, DIRECTED), _r('TR1', dp.tr1, DIRECTED, ('Order',)),
-           _r('TR2', dp.tr2, DIRECTED), _r('OPT', dp.opt_rules, DIRECTED, 'ordering'), _r('METHOD', rk.method, DIRECTED), _r('MAP', rc.map_rules, DIRECTED, only=('MAP',))],
+           _r('TR2', dp.tr2, DIRECTED), _r('OPT', dp.opt_rules, DIRECTED, 'ordering'), _r('METHOD', rk.method, DIRECTED), _r('MAP', rc.map_rules, DIRECTED, only=('MAP',)),
+           _r('FRAME', re_.frame, DIRECTED, r'^Graph::scc', 'scc() and its helpers')],
     explanation='scc() as a Kosaraju composition schema: the first pass loops over all members and appends, for every unvisited one, the complete filtered postorder (not transposed, filter '
                 'rejecting edges into visited nodes) to both the visited set and the ordering (SCC1); the second pass pops the ordering from the back, skips assigned nodes, and takes as '
                 'component the result of a transposed, filtered *reachable-set* search (Order::search_nodes) from the popped node, marking every element assigned (SCC2: a path or cycle '
